@@ -68,13 +68,18 @@ def worker_thread(queue, process_item):
 
 
 @contextmanager
-def worker_pool(queue, process_item, worker_count):
+def worker_pool(queue, process_item, worker_count, stop_processing):
     workers = []
     try:
         for _ in range(worker_count):
             workers.append(worker_thread(queue, process_item))
         yield
     finally:
+        # Also reached when an exception (e.g. KeyboardInterrupt) arrives while the
+        # workers are still being started: release the ones that are already running.
+        stop_processing()
+        for _ in range(worker_count):
+            queue.put(DONE)
         for worker in workers:
             worker.join()
 
@@ -154,13 +159,12 @@ def run_function_on_graph(
                         if remaining_pred_count_mapping[successor] == 0:
                             queue.put(successor)
 
-    with worker_pool(queue, process_node, worker_count):
-        try:
-            queue.join()
-        finally:
-            stop = True
-            for _ in range(worker_count):
-                queue.put(DONE)
+    def stop_processing():
+        nonlocal stop
+        stop = True
+
+    with worker_pool(queue, process_node, worker_count, stop_processing):
+        queue.join()
 
     if first_node_error:
         raise first_node_error
